@@ -302,6 +302,8 @@ def make_case(check, prop, tier, base_seed, i):
 def load_known(prop):
     out = []
     p = os.path.join(VERIF, 'KNOWN_FINDINGS.jsonl')
+    if os.environ.get('VERIF_IGNORE_KNOWN'):
+        return out  # tooling only: lets a listed finding be minimised into replays/known/<id>.json
     if os.path.exists(p):
         for line in open(p):
             line = line.strip()
